@@ -204,6 +204,28 @@ func checkListings(e *asm.Emitter, m *asmModel, when string) string {
 	if !bytes.Equal(e.Bytes(), before) {
 		return "producing the listings changed Bytes()"
 	}
+	// the writer is the caller's: a second rendering into a writer that already holds text appends the
+	// same listing (nothing is consumed by the first rendering, nothing already written is disturbed)
+	for _, k := range []struct {
+		name  string
+		first string
+		f     func(w *bytes.Buffer) error
+	}{{"WriteTextTo", text, func(w *bytes.Buffer) error { return e.WriteTextTo(w) }}, {"WriteHexTo", hex, func(w *bytes.Buffer) error { return e.WriteHexTo(w) }}} {
+		var b bytes.Buffer
+		b.WriteString("; already there\n")
+		var pn2 interface{}
+		var err2 error
+		func() {
+			defer func() { pn2 = recover() }()
+			err2 = k.f(&b)
+		}()
+		if pn2 != nil || err2 != nil {
+			return fmt.Sprintf("a second %s %s failed: err=%v panic=%v", k.name, when, err2, pn2)
+		}
+		if b.String() != "; already there\n"+k.first {
+			return fmt.Sprintf("a second %s %s into a writer that already holds a line produced %q, the first rendering was %q", k.name, when, b.String(), k.first)
+		}
+	}
 	return ""
 }
 
